@@ -684,10 +684,11 @@ impl Regex {
                         while let Some(&digit) = chars.peek() {
                             if digit.is_ascii_digit() {
                                 chars.next();
-                                group_num = group_num * 10 + (digit as u32 - '0' as u32) as usize;
-                                // Limit to reasonable group numbers to avoid overflow
-                                if group_num > MAX_CAPTURE_GROUPS {
-                                    break;
+                                // Stop accumulating once no such group can exist (avoids overflow),
+                                // but keep consuming the digits: they belong to the reference.
+                                if group_num <= MAX_CAPTURE_GROUPS {
+                                    group_num =
+                                        group_num * 10 + (digit as u32 - '0' as u32) as usize;
                                 }
                             } else {
                                 break;
